@@ -1482,7 +1482,8 @@ class AnsiString:
             if count > 0:
                 count -= 1
             # An empty search string matches between all characters: step over the next character like str does
-            idx = obj._s.find(old, idx + len(new) + (0 if old else 1))
+            # (the length of what was inserted - a str replacement may have been longer before it was parsed)
+            idx = obj._s.find(old, idx + len(replace) + (0 if old else 1))
 
         if inplace:
             self._s = obj._s
